@@ -196,6 +196,22 @@ theorem C13_noop (m : Mode) (s : Sys) (c : Nat) (hidle : s.tx c = .idle) :
         · exact step_tx_other _ _ _ _ _ hd
     · simp [hidle, loc]
 
+/-- **A statement that fails outside a transaction changes nothing – in particular it leaves no transaction open**:
+    Catalog/Binder failures, run-time failures, and a multi-part statement (MERGE) failing part-way.  So afterwards the
+    connection is still in autocommit (`C13_autocommit` applies to its next DML) and COMMIT/ROLLBACK are still no-ops
+    (`C13_noop`).  (A code change that wraps the parts of a MERGE in a transaction of its own and forgets to roll it
+    back on failure breaks exactly this; the correspondence runs such statements followed by DML, another connection's
+    reads and a ROLLBACK.) -/
+theorem C13_failed_statement_keeps_autocommit (m : Mode) (s : Sys) (c : Nat) (hidle : s.tx c = .idle) :
+    (∀ b, (step m s c (.failBind b)).1 = s) ∧ (step m s c .failRun).1 = s ∧ (step m s c .failMulti).1 = s := by
+  refine ⟨fun b => ?_, ?_, ?_⟩ <;>
+  · apply Sys.ext'
+    · simp [hidle, loc]
+    · intro d
+      by_cases hd : d = c
+      · subst hd; simp [hidle, loc]
+      · exact step_tx_other _ _ _ _ _ hd
+
 /-- **Sticky to theirs** (`instance.py:83`, `conn.py:124-126`, `conn.py:121-122,146-147`): for every event list
     (connects, cursor creations, statements on any cursor, `conn.commit()`/`conn.rollback()`) starting from a
     fresh instance, the real plumbing – a new engine connection per `connect()`, cursors sharing their
